@@ -9,6 +9,7 @@
 (*   "umi_known":b,"umi_in":text,"umiq_in":text,        UMI bases/qualities as laid out (plain layouts) *)
 (*   "raised":s,                                        exception of strategy.demultiplex             *)
 (*   "dt":[[key,text]..],                               TaggedRecord.tags in order                    *)
+(*   "ser_raised":s,                                    exception of str(record) other than the refusal *)
 (*   "refused":b,"header":text,                         asFastq raised ValueError / the header line   *)
 (*   "stored":b,                                        pysam accepted the name                       *)
 (*   "digested":b,"digest_raised":s,"bt":[[key,text]..],"qname":text}   after QueryNameFlagger.digest *)
@@ -45,6 +46,7 @@ PairVerdict(e) ==
         bad == FirstBadKeyEnc(raw, bam)
     IN IF e.raised = "NonMultiplexable" THEN "outside:not_accepted"
        ELSE IF e.raised # "" THEN (IF e.qmax > TopPhredChar THEN "Inv_C04_QTotal" ELSE "Inv_C04_accepted_pair_raises")
+       ELSE IF e.ser_raised # "" THEN "Inv_C04_serialising_accepted_pair_raises"      \* str(record) / asFastq raised something else than the length refusal
        ELSE IF e.refused THEN (IF hlen > BamLimit THEN "ok" ELSE "outside:refused_although_storable")
        ELSE IF hlen > BamLimit THEN "Inv_C04_Refuse"
        ELSE IF ~e.stored THEN "Inv_C04_name_not_storable_below_limit"
